@@ -116,7 +116,7 @@ Definition parse_obs (s : text) : text :=
 (** * run channel K3 *)
 From Aplang Require Import Tables Value StrLib EvalImpl.
 
-Definition run_fuel : nat := N.to_nat 30000.
+Definition run_fuel : nat := N.to_nat 6000.
 
 Definition res_obs (r : res unit) : text :=
   match r with
@@ -200,6 +200,37 @@ Definition run_obs_fs (src root : text) (paths : list text) : text :=
       match final_state r with
       | Some st => concat (map (fun p => sp ++ fsent_obs (fs_get (o_fs (orc st)) p)) paths)
       | None => []
+      end
+    | _ => sb "PARSE"
+    end
+  | _ => sb "LEX"
+  end.
+
+(** * the excluded classes of C10: does the heap hold a list / map that contains itself?
+    Used only for cases on which the implementation overflowed its native stack: that is accepted
+    iff this model run exhausts its fuel or ends with such a heap. *)
+Definition val_addr (v : value) : list nat := match v with VList a | VObj a => [a] | _ => [] end.
+Definition cell_children (c : cell) : list nat :=
+  match c with
+  | CList l => flat_map val_addr l
+  | CMap m => flat_map (fun p => val_addr (fst p) ++ val_addr (snd p)) m
+  | CRobot _ => []
+  end.
+(* one peeling round: a cell is known acyclic when all the cells it holds are *)
+Definition peel (h : heap_t) (ok : list bool) : list bool :=
+  map (fun c => forallb (fun a => nth a ok true) (cell_children c)) h.
+Definition heap_cyclic (h : heap_t) : bool :=
+  negb (forallb (fun b => b) (Nat.iter (length h) (peel h) (map (fun _ => false) h))).
+
+Definition excluded_obs (src : text) (files : list (text * text)) : text :=
+  match lex src with
+  | LexOk ts =>
+    match parse_tokens ts with
+    | ParseOk prog =>
+      let r := block_top (exec run_fuel) prog (fresh_state [] [] [] (mkOracle [] [] 1700000000000%float files []) []) in
+      match final_state r with
+      | None => sb "EXCLUDED"                                      (* fuel: recursion / nesting beyond the fixed depth *)
+      | Some st => if heap_cyclic (heap st) then sb "EXCLUDED" else sb "NOCYCLE " ++ res_obs r
       end
     | _ => sb "PARSE"
     end
